@@ -10,6 +10,7 @@ import numpy as np
 
 from vp import gen, probe, propmodel, refmodels as rm
 from vp import defaults
+from vp import reuse
 
 RULE = ('seeded generator: pupil amplitude/OPD arrays 3..24 per side (even/odd/non-square, off-centre support), '
         'wavelength, focal length, scalar or per-axis dx and du, oversample 1..4, output shapes, prop_shape <= shape, '
@@ -180,6 +181,7 @@ def near_critical(ctx, lentil, rng):
 
 def workload(ctx, lentil):
     defaults.run(ctx, lentil, 'C02', 'dft=fraunhofer')
+    reuse.run(ctx, lentil, 'C02', 'dft=fraunhofer')
     rng = ctx.rng
     broadband(ctx, lentil, rng)
     fft_broadband(ctx, lentil, rng)
